@@ -27,6 +27,7 @@ func (x *gen) thorough() bool { return x.tier == "thorough" }
 var charPool = []string{
 	"a", "b", "c", "x", "y", "z", "A", "B", "C", "Z", "0", "1", "2", "3", "5", "7", "9", "O", "I", "l", "S",
 	"!", "@", ".", "-", "_", "*", "#", " ", "é", "ü", "ß", "ñ", "Ω", "→", "日", "本", "😀", "𝄞", "ǆ", "́",
+	"\uFFFD", "%", "\\", "\"",
 }
 
 func (x *gen) poolString(maxLen int, dupes bool) string {
@@ -180,7 +181,8 @@ func budgetT(b string) int {
 
 // alphabetOf: the implementation's own view of the alphabet size, used only to aim tapes.
 func alphabetSize(r recipeSpec) int {
-	n := len([]rune(r.build().Alphabet()))
+	br := r.build()
+	n := len([]rune((&br).Alphabet()))
 	capt.take()
 	return n
 }
@@ -669,7 +671,8 @@ func (x *gen) wlnewOp(reps int) {
 
 // ---------- tokens
 
-var tokPool = []string{"a", "b", "-", " ", "correct", "horse", "é", "ü", "日本", "😀", "ab", "x→y", "0", "12", "été", "𝄞𝄞"}
+var tokPool = []string{"a", "b", "-", " ", "correct", "horse", "é", "ü", "日本", "😀", "ab", "x→y", "0", "12", "été", "𝄞𝄞",
+	"\uFFFD", "caf\uFFFD", "\u00a0", "\u2028", "%s"}
 
 func (x *gen) tokValue() string {
 	switch c := x.g.intn(100); {
@@ -743,7 +746,49 @@ func (x *gen) randomBytes(n int, validBias bool) []byte {
 	return b
 }
 
+// longTokenizeOp: passwords longer than one index byte can count (255 characters and around
+// multiples of it), with short indices of every kind.
+func (x *gen) longTokenizeOp() {
+	unit := []string{"a", "é", "日", "😀", "ab"}[x.g.intn(5)]
+	n := []int{254, 255, 256, 257, 300, 509, 510, 511, 600, 1021}[x.g.intn(10)]
+	pw := []byte(strings.Repeat(unit, n))
+	chars := n * len([]rune(unit))
+	var idx []byte
+	switch x.g.intn(6) {
+	case 0:
+		idx = []byte{0}
+	case 1:
+		idx = []byte{0, byte(x.g.intn(256))}
+	case 2:
+		idx = []byte{1, 255, byte(minInt(chars-255, 255))}
+	case 3:
+		idx = []byte{2, 200, 55, byte(minInt(maxInt(chars-255, 0), 255))}
+	case 4:
+		idx = []byte{3, 255, 1, 1, 0, byte(minInt(maxInt(chars-256, 0), 255)), 1}
+	default:
+		idx = []byte{1}
+		rem := chars
+		for rem > 0 && len(idx) < 12 {
+			l := minInt(rem, 255)
+			idx = append(idx, byte(l))
+			rem -= l
+		}
+	}
+	x.emit("tokenize pw=%s idx=%s", encHex(pw), encHex(idx))
+}
+
+func minInt(a, b int) int {
+	if a < b {
+		return a
+	}
+	return b
+}
+
 func (x *gen) tokenizeOp() {
+	if x.g.chance(4) {
+		x.longTokenizeOp()
+		return
+	}
 	pw := x.randomBytes(x.g.intn(16), x.g.chance(70))
 	if x.g.chance(5) {
 		pw = nil
@@ -1289,6 +1334,22 @@ func generate(prop, tier string, seed uint64) []string {
 		x.emit("chargen r=20/15/0/16/_/-/_ tape=%s", encWords(x.tape(61, 20, 4)))
 	case "C17":
 		rep(250, x.cliOp)
+		// every class word in every role, against exclusions that do and do not contain it
+		for _, c := range []string{"uppercase", "lowercase", "digits", "symbols", "ambiguous"} {
+			for _, role := range []string{"--require", "--allow", "--exclude"} {
+				for _, other := range [][]string{nil, {"--exclude", "symbols"}, {"--exclude=" + c}, {"--allow=lowercase,digits"}} {
+					if len(other) > 0 && strings.HasPrefix(other[0], role) {
+						continue
+					}
+					args := append([]string{"characters", "--length", "8", role, c}, other...)
+					x.emit("cli argv=%s", encList(append(args, "--entropy")))
+					if x.g.chance(50) {
+						args[2] = "3"
+						x.emit("cli argv=%s", encList(args))
+					}
+				}
+			}
+		}
 		// word files with one very long word, at three positions, with and without --entropy
 		for _, n := range []int{65535, 65536, 70000} {
 			long := strings.Repeat("q", n)
